@@ -378,7 +378,85 @@ func tBVBin(op string, a, b *Term) *Term {
 	return mkOp(op, a.S, a, b)
 }
 
+// absBound: an upper bound on |signed value| that holds for every assignment,
+// or nil when none is known. Used to justify overflow-free rewrites of
+// multiplication by a constant (the x*1e9 duration kernel).
+func absBound(t *Term) *big.Int {
+	if t.S.K != KBV {
+		return nil
+	}
+	if t.IsConst() {
+		v := big.NewInt(sext(t.S.W, t.U))
+		return v.Abs(v)
+	}
+	switch {
+	case strings.HasPrefix(t.Op, "(_ zero_extend"):
+		w := t.Args[0].S.W
+		b := new(big.Int).Lsh(big.NewInt(1), uint(w))
+		return b.Sub(b, big.NewInt(1))
+	case strings.HasPrefix(t.Op, "(_ sign_extend"):
+		return absBound(t.Args[0])
+	case t.Op == "bvadd" || t.Op == "bvsub":
+		a, b := absBound(t.Args[0]), absBound(t.Args[1])
+		if a == nil || b == nil {
+			return nil
+		}
+		r := new(big.Int).Add(a, b)
+		if r.BitLen() >= t.S.W {
+			return nil
+		}
+		return r
+	case t.Op == "ite":
+		a, b := absBound(t.Args[1]), absBound(t.Args[2])
+		if a == nil || b == nil {
+			return nil
+		}
+		if a.Cmp(b) > 0 {
+			return a
+		}
+		return b
+	}
+	return nil
+}
+
+// mulFactor: t = x * c with c a positive constant and no signed overflow possible.
+func mulFactor(t *Term) (*Term, uint64, bool) {
+	if t.Op != "bvmul" {
+		return nil, 0, false
+	}
+	x, c := t.Args[0], t.Args[1]
+	if x.IsConst() {
+		x, c = c, x
+	}
+	if !c.IsConst() || sext(c.S.W, c.U) <= 0 {
+		return nil, 0, false
+	}
+	ab := absBound(x)
+	if ab == nil {
+		return nil, 0, false
+	}
+	p := new(big.Int).Mul(ab, new(big.Int).SetUint64(c.U))
+	if p.BitLen() >= t.S.W {
+		return nil, 0, false
+	}
+	return x, c.U, true
+}
+
 func tBVCmp(op string, a, b *Term) *Term {
+	if strings.HasPrefix(op, "bvs") {
+		if x, c, ok := mulFactor(a); ok {
+			if b.IsConst() && b.U == 0 {
+				return tBVCmp(op, x, b)
+			}
+			if y, c2, ok2 := mulFactor(b); ok2 && c == c2 {
+				return tBVCmp(op, x, y)
+			}
+		} else if a.IsConst() && a.U == 0 {
+			if y, _, ok := mulFactor(b); ok {
+				return tBVCmp(op, a, y)
+			}
+		}
+	}
 	if a.Op == "bvcount" && b.IsConst() && a.U == 0 && b.U == 0 {
 		switch op {
 		case "bvsgt", "bvugt":
@@ -588,7 +666,11 @@ func tStrLen(a *Term) *Term {
 		return tStrLen(a.Args[0])
 	}
 	if a.Op == "bcat" {
-		return tIntBin("+", tStrLen(a.Args[0]), tStrLen(a.Args[1]))
+		sum := mkInt(0)
+		for _, p := range a.Args {
+			sum = tIntBin("+", sum, tStrLen(p))
+		}
+		return sum
 	}
 	if a.S == SBlob && a.Op != "ite" {
 		return mkOp("blen", SInt, a)
@@ -618,10 +700,29 @@ func tStrConcat(a, b *Term) *Term {
 			return toBlob(a)
 		}
 		a, b = toBlob(a), toBlob(b)
-		if a.Op == "bOfS" && b.Op == "bOfS" {
-			return toBlob(tStrConcat(a.Args[0], b.Args[0]))
+		// flatten into a normalised piece list (adjacent string images merged) so that
+		// differently associated concatenations are syntactically equal
+		var pieces []*Term
+		add := func(t *Term) {
+			if n := len(pieces); n > 0 && pieces[n-1].Op == "bOfS" && t.Op == "bOfS" {
+				pieces[n-1] = toBlob(tStrConcat(pieces[n-1].Args[0], t.Args[0]))
+				return
+			}
+			pieces = append(pieces, t)
 		}
-		return mkOp("bcat", SBlob, a, b)
+		for _, t := range []*Term{a, b} {
+			if t.Op == "bcat" {
+				for _, p := range t.Args {
+					add(p)
+				}
+			} else {
+				add(t)
+			}
+		}
+		if len(pieces) == 1 {
+			return pieces[0]
+		}
+		return mkOp("bcat", SBlob, pieces...)
 	}
 	if a.IsConst() && b.IsConst() {
 		return mkStr(a.Str + b.Str)
@@ -633,6 +734,18 @@ func tStrConcat(a, b *Term) *Term {
 		return a
 	}
 	return mkOp("str.++", SStr, a, b)
+}
+
+// nestBcat turns the n-ary bcat into nested binary applications for printing.
+func nestBcat(t *Term) *Term {
+	if t.Op != "bcat" || len(t.Args) <= 2 {
+		return t
+	}
+	acc := t.Args[len(t.Args)-1]
+	for i := len(t.Args) - 2; i >= 0; i-- {
+		acc = &Term{Op: "bcat", S: SBlob, Args: []*Term{t.Args[i], acc}}
+	}
+	return acc
 }
 
 // byte at index i (Int) as BV8. Strings hold bytes 0..255 as code points.
@@ -747,6 +860,9 @@ func (t *Term) String() string {
 	}
 	if t.Op == "bvcount" {
 		return expandCount(t).String()
+	}
+	if t.Op == "bcat" && len(t.Args) > 2 {
+		return nestBcat(t).String()
 	}
 	var b strings.Builder
 	b.WriteByte('(')
